@@ -125,4 +125,124 @@ def maskTable {Row C : Type} (inside : C → Bool) (coord : Row → C) (negate :
   let mask := if !negate then ins.map (fun b => !b) else ins
   selectMask mask rows
 
+/-! ### Glue over regenerated pieces
+
+`translator/targets/C10.py` slices `mask_plane`, `mask_file`, `mask_table`, `mask_catalog` into small
+definitions regenerated from the source on every run (`Gen.C10.*`).  `Pieces` collects them; the
+functions below are the fixed, hand-written glue that assembles a model of the code from them.  The
+`…Hand` definitions are the fallbacks the generated file uses for a piece the slicer cannot read. -/
+
+def idxE0Hand (j : Nat) : Nat := j
+def idxE1Hand (_j : Nat) : Nat := 0
+def idxSetColHand (_i : Nat) : Nat := 1
+def idxSetValHand (i : Nat) : Nat := i
+def idxLoHand (i _nrow ncol : Nat) : Nat := i * ncol
+def idxHiHand (i _nrow ncol : Nat) : Nat := (i + 1) * ncol
+def idxTotalHand (nrow ncol : Nat) : Nat := nrow * ncol
+def idxOuterHand (nrow _ncol : Nat) : Nat := nrow
+def idxInnerHand (_nrow ncol : Nat) : Nat := ncol
+def wcsOriginHand (_u : Int) : Int := 0
+def wcsShiftHand (_u : Int) : Int := 0
+def skyOrderHand (_u : Nat) : Nat := 1
+def skyDeginHand (_u : Nat) : Nat := 1
+def maskBitHand (negate inside : Int) : Int := if negate = 0 then 1 - inside else inside
+def applyReshapeHand (_u : Nat) : Nat := 1
+def applyBlankHand (_u : Nat) : Nat := 1
+def planeCutHand (_u : Int) : Int := -2
+def planeSameHand (_u : Int) : Nat := 1
+def rowKeepHand (negate inside : Int) : Int := if negate = 0 then 1 - inside else inside
+def tableArgsHand (_u : Nat) : Nat := 1
+def catalogArgsHand (_u : Nat) : Nat := 1
+
+structure Pieces where
+  e0 : Nat → Nat
+  e1 : Nat → Nat
+  setCol : Nat → Nat
+  setVal : Nat → Nat
+  lo : Nat → Nat → Nat → Nat
+  hi : Nat → Nat → Nat → Nat
+  total : Nat → Nat → Nat
+  outer : Nat → Nat → Nat
+  inner : Nat → Nat → Nat
+  origin : Int
+  shift : Int
+  skyOrder : Nat
+  skyDegin : Nat
+  maskBit : Int → Int → Int
+  reshape : Nat
+  blank : Nat
+  planeCut : Int
+  planeSame : Nat
+  rowKeep : Int → Int → Int
+  tableArgs : Nat
+  catalogArgs : Nat
+
+def handPieces : Pieces where
+  e0 := idxE0Hand
+  e1 := idxE1Hand
+  setCol := idxSetColHand
+  setVal := idxSetValHand
+  lo := idxLoHand
+  hi := idxHiHand
+  total := idxTotalHand
+  outer := idxOuterHand
+  inner := idxInnerHand
+  origin := wcsOriginHand 0
+  shift := wcsShiftHand 0
+  skyOrder := skyOrderHand 0
+  skyDegin := skyDeginHand 0
+  maskBit := maskBitHand
+  reshape := applyReshapeHand 0
+  blank := applyBlankHand 0
+  planeCut := planeCutHand 0
+  planeSame := planeSameHand 0
+  rowKeep := rowKeepHand
+  tableArgs := tableArgsHand 0
+  catalogArgs := catalogArgsHand 0
+
+def bit (b : Bool) : Int := if b then 1 else 0
+
+/-- `idx` inside the row loop: the comprehension, then `idx[:, c] = v` -/
+def idxRowP (P : Pieces) (nrow ncol i : Nat) : List Pix :=
+  ((List.range (P.inner nrow ncol)).map (fun j => (((P.e0 j : Nat) : Int), ((P.e1 j : Nat) : Int)))).map
+    (fun p => if P.setCol i = 0 then (((P.setVal i : Nat) : Int), p.2) else (p.1, ((P.setVal i : Nat) : Int)))
+
+/-- `a[lo:hi] = src` (numpy demands `hi - lo = len(src)`; the model writes `src` and resumes at `hi`) -/
+def setSliceP {β : Type} (a : List β) (lo hi : Nat) (src : List β) : List β :=
+  a.take lo ++ src ++ a.drop hi
+
+def buildIndexesP (P : Pieces) (nrow ncol : Nat) (junk : List Pix) : List Pix :=
+  (List.range (P.outer nrow ncol)).foldl
+    (fun acc i => setSliceP acc (P.lo i nrow ncol) (P.hi i nrow ncol) (idxRowP P nrow ncol i)) junk
+
+def indexesP (P : Pieces) (H W : Nat) : List Pix :=
+  buildIndexesP P H W (List.replicate (P.total H W) (0, 0))
+
+/-- world coordinates, membership (the two world columns in the order `skyOrder` says; a swapped
+    order hands (dec, ra) to `sky_within`, modelled by `swap`), negate logic -/
+def bigmaskP {S : Type} (P : Pieces) (swap : S → S) (sky : Pix → S) (inside : S → Bool) (negate : Bool)
+    (H W : Nat) : List Bool :=
+  let world := (indexesP P H W).map (fun p => pix2world sky P.origin (p.1 + P.shift, p.2 + P.shift))
+  let world := if P.skyOrder = 1 then world else world.map swap
+  world.map (fun s => P.maskBit (bit negate) (bit (inside s)) == 1)
+
+def maskPlaneP {α S : Type} (P : Pieces) (swap : S → S) (nan other : α) (sky : Pix → S) (inside : S → Bool)
+    (negate : Bool) (H W : Nat) (data : List α) : List α :=
+  assignNan (if P.blank = 1 then nan else other) (bigmaskP P swap sky inside negate H W) data
+
+/-- the plane loop: `np.ndindex(data.shape[:cut])` with `cut = -2` runs over all leading axes, i.e. over
+    the `P` consecutive `H·W` chunks; any other `cut` is not a loop over 2-D planes and the model refuses
+    (returns the data untouched, which fails the Spec whenever something has to be blanked) -/
+def maskFileP {α S : Type} (P : Pieces) (swap : S → S) (nan other : α) (sky : Pix → S) (inside : S → Bool)
+    (negate : Bool) (planes H W : Nat) (data : List α) : List α :=
+  if P.planeCut = -2 ∧ P.planeSame = 1 ∧ P.reshape = 1 ∧ P.skyDegin = 1 then
+    ((List.range planes).map (fun p => maskPlaneP P swap nan other sky inside negate H W (plane H W data p))).flatten
+  else data
+
+def maskTableP {Row C : Type} (P : Pieces) (inside : C → Bool) (coord : Row → C) (negate : Bool)
+    (rows : List Row) : List Row :=
+  if P.tableArgs = 1 ∧ P.catalogArgs = 1 then
+    selectMask (rows.map (fun r => P.rowKeep (bit negate) (bit (inside (coord r))) == 1)) rows
+  else []
+
 end Aegean.Model.C10
